@@ -122,7 +122,11 @@ impl<'a> V<'a> {
             }
         }
     }
-    fn semantic_tokens(&mut self, data: &[Value], ntypes: usize, nmods: usize, multiline: bool) {
+    /// `pieces`: for every lexical token of the document that spans several lines, its non-final lines as
+    /// (line, start column, UTF-16 length up to the end of the line). A semantic token that starts where such a
+    /// piece starts has been split per line by the server and must cover the piece exactly (C23: lengths are
+    /// UTF-16 code units too).
+    fn semantic_tokens(&mut self, data: &[Value], ntypes: usize, nmods: usize, multiline: bool, pieces: &[(u64, u64, u64)]) {
         let (mut line, mut ch) = (0u64, 0u64);
         let mut prev_end: Option<(u64, u64)> = None;
         if data.len() % 5 != 0 {
@@ -154,12 +158,52 @@ impl<'a> V<'a> {
                     self.bad("semantic-tokens-overlap-or-unordered", format!("token {i} at {line}:{ch} starts before the previous token ends at {}:{}", pe.0, pe.1));
                 }
             }
+            if !multiline {
+                if let Some(p) = pieces.iter().find(|p| p.0 == line && p.1 == ch) {
+                    self.seen("semanticTokens.multi-line-piece");
+                    if len != p.2 {
+                        self.bad("semantic-token-piece-length-not-utf16-line-rest", format!("token {i} at {line}:{ch} len {len}: it is one line of a multi-line token and the rest of that line is {} UTF-16 units", p.2));
+                    }
+                }
+            }
             if !multiline && ch + len > self.lines.line_len_max(line) {
                 self.bad("semantic-token-runs-past-line-end", format!("token {i} at {line}:{ch} len {len}, line has {} units", self.lines.line_len_max(line)));
             }
             prev_end = Some((line, ch + len));
         }
     }
+}
+
+/// Non-final lines of every string token that contains a line break: (line, start column, UTF-16 units to the
+/// end of the line), by the LSP position model (UTF-16; \n, \r\n, \r).
+pub fn multi_line_pieces(text: &str) -> Vec<(u64, u64, u64)> {
+    use emmylua_parser::{LuaParser, LuaTokenKind, ParserConfig};
+    let model = crate::posmodel::PosModel::lsp(text);
+    let tree = LuaParser::parse(text, ParserConfig::default());
+    let mut out = Vec::new();
+    for el in tree.get_red_root().descendants_with_tokens() {
+        let rowan::NodeOrToken::Token(t) = el else { continue };
+        let kind: LuaTokenKind = t.kind().into();
+        // strings only: the server highlights words *inside* comments (doc tags, markup) with tokens of their own,
+        // which may start where a line of the comment starts without being that line
+        if !matches!(kind, LuaTokenKind::TkLongString | LuaTokenKind::TkString) || !t.text().contains(['\n', '\r']) {
+            continue;
+        }
+        let r = t.text_range();
+        let (s, e) = (usize::from(r.start()), usize::from(r.end()));
+        if e > text.len() {
+            continue;
+        }
+        let ((sl, sc), (el_, _)) = model.range_of(s, e);
+        for line in sl..el_ {
+            let Some(len) = model.line_len_units(line) else { continue };
+            let start = if line == sl { sc } else { 0 };
+            if len >= start {
+                out.push((line as u64, start as u64, (len - start) as u64));
+            }
+        }
+    }
+    out
 }
 
 fn selection_chain(v: &mut V, sr: &Value, cursor: Option<P>) {
@@ -249,7 +293,7 @@ fn run_doc(work: &str, text: &str, positions: Vec<(u32, u32)>) -> DocResult {
             match *m {
                 "textDocument/semanticTokens/full" => {
                     if let Some(d) = res["data"].as_array() {
-                        v.semantic_tokens(d, ntypes, nmods, false);
+                        v.semantic_tokens(d, ntypes, nmods, false, &multi_line_pieces(&text_owned));
                     }
                 }
                 "textDocument/documentSymbol" => {
